@@ -1,16 +1,10 @@
 (* Proofs about the traced loss kernels of learner1D.py, learnerND.py and
    learner2D.py (gen/Prims.v). *)
 From Coq Require Import Reals Lra Psatz Bool.
-From AV Require Import Model.PrimsBase Proofs.PrimsLemmas Proofs.PrimsGeom Proofs.PrimsVolume.
+From AV Require Import Model.PrimsBase Model.PrimsSpec Proofs.PrimsLemmas Proofs.PrimsGeom Proofs.PrimsVolume.
 From AVGen Require Import Prims.
 Local Open Scope R_scope.
 
-(* reference notions *)
-Definition hyp (a b : R) : R := sqrt (a * a + b * b).          (* mathematical reading of np.hypot *)
-Definition tri_area (ax ay bx b_y cx cy : R) : R :=            (* area of the triangle a b c *)
-  Rabs (det2 (bx - ax) (b_y - ay) (cx - ax) (cy - ay)) / 2.
-
-(* rewrite every [Rabs x] of the goal whose argument equals +-D into [Rabs D] *)
 Ltac abs_into D :=
   repeat match goal with |- context [Rabs ?x] =>
     tryif constr_eq x D then fail else
@@ -120,7 +114,8 @@ Proof.
 Qed.
 
 (* linspace(a, b, n): the n-1 interior points a + k (b-a)/n *)
-Lemma l1_linspace1_spec : forall a b, l1_linspace1 a b = 0.   (* empty list, printed as 0 *)
+(* n = 1: the empty list, which the translator prints as 0 *)
+Lemma l1_linspace1_spec : forall a b, l1_linspace1 a b = 0.
 Proof. reflexivity. Qed.
 Lemma l1_linspace2_spec : forall a b, l1_linspace2 a b = a + 1 * (b - a) / 2.
 Proof. intros; unfold l1_linspace2; field. Qed.
@@ -166,6 +161,64 @@ Lemma nd_default_loss2v_spec : forall ax ay bx b_y cx cy y00 y01 y10 y11 y20 y21
 Proof.
   intros. pose proof (tri_area2_4_nonneg ax ay y00 y01 bx b_y y10 y11 cx cy y20 y21).
   unfold nd_default_loss2v. cm_tac (tri_area2_4 ax ay y00 y01 bx b_y y10 y11 cx cy y20 y21).
+Qed.
+
+(* choose_point_in_simplex, 2-d, no transform: centroid when the circumcentre passes
+   the point-in-simplex test (with the float constants -1e-8 and fl(1+1e-8)), else the
+   mid-point of a longest edge (first maximum in numpy's argmax order) *)
+Lemma sqrt_dist_pos a b : a <> 0 \/ b <> 0 -> 0 < sqrt (a * a + b * b).
+Proof. intros H. apply sqrt_lt_R0. destruct H; nra. Qed.
+
+Lemma nd_choose_point2_spec : forall ax ay bx b_y cx cy s t,
+  det2 (bx - ax) (b_y - ay) (cx - ax) (cy - ay) <> 0 ->
+  let '((ox, oy), _) := fast_2d_circumcircle ax ay bx b_y cx cy in
+  ox = ax + s * (bx - ax) + t * (cx - ax) ->
+  oy = ay + s * (b_y - ay) + t * (cy - ay) ->
+  let nice := - eps8 <= s /\ s <= one_eps8 /\ - eps8 <= t /\ s + t <= one_eps8 in
+  let dab := sqrt (dist2_2 ax ay bx b_y) in
+  let dac := sqrt (dist2_2 ax ay cx cy) in
+  let dbc := sqrt (dist2_2 bx b_y cx cy) in
+  let r := nd_choose_point2 ax ay bx b_y cx cy in
+  (nice -> r = ((ax + bx + cx) / 3, (ay + b_y + cy) / 3)) /\
+  (~ nice ->
+     (r = (mid ax bx, mid ay b_y) /\ dac <= dab /\ dbc <= dab) \/
+     (r = (mid ax cx, mid ay cy) /\ dab <= dac /\ dbc <= dac) \/
+     (r = (mid bx cx, mid b_y cy) /\ dab <= dbc /\ dac <= dbc)).
+Proof.
+  intros ax ay bx b_y cx cy s t H. unfold det2 in H.
+  unfold fast_2d_circumcircle, nd_choose_point2, dist2_2, sq, mid; cbv beta iota zeta.
+  intros Hox Hoy. rewrite Hox, Hoy. clear Hox Hoy.
+  assert (Pab : 0 < sqrt ((ax - bx) * (ax - bx) + (ay - b_y) * (ay - b_y))).
+  { apply sqrt_dist_pos. destruct (Req_dec (ax - bx) 0) as [E1|]; [|tauto].
+    destruct (Req_dec (ay - b_y) 0) as [E2|]; [|tauto]. exfalso; apply H.
+    replace bx with ax by lra. replace b_y with ay by lra. ring. }
+  assert (Pac : 0 < sqrt ((ax - cx) * (ax - cx) + (ay - cy) * (ay - cy))).
+  { apply sqrt_dist_pos. destruct (Req_dec (ax - cx) 0) as [E1|]; [|tauto].
+    destruct (Req_dec (ay - cy) 0) as [E2|]; [|tauto]. exfalso; apply H.
+    replace cx with ax by lra. replace cy with ay by lra. ring. }
+  assert (Pbc : 0 < sqrt ((bx - cx) * (bx - cx) + (b_y - cy) * (b_y - cy))).
+  { apply sqrt_dist_pos. destruct (Req_dec (bx - cx) 0) as [E1|]; [|tauto].
+    destruct (Req_dec (b_y - cy) 0) as [E2|]; [|tauto]. exfalso; apply H.
+    replace cx with bx by lra. replace cy with b_y by lra. ring. }
+  set (dab := sqrt ((ax - bx) * (ax - bx) + (ay - b_y) * (ay - b_y))) in *.
+  set (dac := sqrt ((ax - cx) * (ax - cx) + (ay - cy) * (ay - cy))) in *.
+  set (dbc := sqrt ((bx - cx) * (bx - cx) + (b_y - cy) * (b_y - cy))) in *.
+  clearbody dab dac dbc.
+  repeat match goal with
+  | |- context [Rltb ?x (IZR _ / IZR _)] =>
+      tryif first [constr_eq x s | constr_eq x t] then fail else
+      first [replace x with s by (field; lra) | replace x with t by (field; lra)]
+  | |- context [Rleb (IZR _ / IZR _) ?x] =>
+      tryif first [constr_eq x s | constr_eq x t] then fail else
+      first [replace x with s by (field; lra) | replace x with t by (field; lra)]
+  end.
+  unfold eps8, one_eps8.
+  split; rcase; intros N;
+    (first [ exfalso; lra
+           | pair_eq; field
+           | left; split; [pair_eq; field | lra]
+           | right; left; split; [pair_eq; field | lra]
+           | right; right; split; [pair_eq; field | lra] ]).
 Qed.
 
 (* ---- learner2D ---- *)
